@@ -7,6 +7,7 @@ import anneal_common as A
 from props import c11
 
 ID = "C17"
+ISOLATE = True      # the implementation side runs in child processes: a crash of the C extension is reported, not fatal
 IMPORTS = c11.IMPORTS
 CASE_TYPE, RUN, EQB = c11.CASE_TYPE, c11.RUN, c11.EQB
 CHUNK = 20
@@ -107,6 +108,8 @@ def batch_check(cases, outs):
         STATE["sanitizer"] = report
         return viol
     for i, (o, so) in enumerate(zip(outs, souts)):
+        if "purity_error" in o:
+            continue
         if "error" in o or "error" in so:
             if o.get("error") != so.get("error"):
                 viol[i] = ["sanitized run raised %r, plain run %r" % (so.get("error"), o.get("error"))]
